@@ -881,22 +881,6 @@ func driverMain() int {
 
 // classifyCrash decides whether a dead worker was killed by a panic in library
 // code (a violation) or by harness trouble.
-// stdFrame: a frame of the Go runtime or standard library (the first element of
-// its package path has no dot and it is not the harness itself). A library
-// function spinning around strings.Index is still a library spin.
-func stdFrame(l string) bool {
-	first := l
-	if i := strings.Index(first, "/"); i >= 0 {
-		first = first[:i]
-	} else if i := strings.Index(first, "."); i >= 0 {
-		first = first[:i]
-	}
-	if first == "verifsim" || first == "main" || first == "" {
-		return false
-	}
-	return !strings.Contains(first, ".")
-}
-
 func classifyCrash(prop string, cur []byte, stderr, replayDir string) (ViolationOut, bool) {
 	rule := "panic"
 	idx := strings.Index(stderr, "panic: ")
